@@ -33,23 +33,29 @@
 EXTENDS LoaderOps
 
 (* ------------------------------------------------------------------ a small linker + loader model *)
-CONSTANTS Addrs,        \* candidate link-time addresses of pointer fields
+CONSTANTS Offs,         \* candidate offsets of pointer fields inside one 1-aligned input section
           Rule,         \* "address"  RELR iff relr enabled and the PLACE is even        (elf_writer.rs ~1058)
                         \* "offset"   RELR iff relr enabled and the SECTION OFFSET is even (elf.rs ~4866)
                         \* "packed"   like "address" but entries packed into bitmaps (GNU ld style)
           ModelBases    \* set of W64 bases
 
-VARIABLES places,       \* chosen pointer fields: set of [p |-> address, secodd |-> section starts at an odd address]
+VARIABLES offs,         \* chosen pointer fields: set of section offsets
+          secodd,       \* the section starts at an odd address
           relrOn, out, phase
 
-mvars == <<places, relrOn, out, phase>>
+mvars == <<offs, secodd, relrOn, out, phase>>
 
-NoOverlap(S) == \A a, b \in S : a # b => (a.p + 8 <= b.p \/ b.p + 8 <= a.p)
-PlaceRecs == [p : Addrs, secodd : BOOLEAN]
-PlaceSets == {{}} \cup {S \in {{a, b, c} : a \in PlaceRecs, b \in PlaceRecs, c \in PlaceRecs} : NoOverlap(S)}
+SecBase == 4096
+AddrOf(f) == SecBase + (IF secodd THEN 1 ELSE 0) + f
+NoOverlap(S) == \A a, b \in S : a # b => (a + 8 <= b \/ b + 8 <= a)
+OffSets == {{}} \cup {S \in {{a, b, c} : a \in Offs, b \in Offs, c \in Offs} : NoOverlap(S)}
 
-SecOffsetEven(x) == (IF x.secodd THEN x.p - 1 ELSE x.p) % 2 = 0
-UseRelr(x) == relrOn /\ (IF Rule = "offset" THEN SecOffsetEven(x) ELSE x.p % 2 = 0)
+AllocRelr(f) == relrOn /\ f % 2 = 0               \* layout: parity of the offset in the input section
+(* writer: parity of the place; the writer has a RELR table only if the layout reserved at least one
+   entry for the file (TableWriter::new filters an empty .relr.dyn part out) *)
+WriteRelr(f) == relrOn /\ AddrOf(f) % 2 = 0 /\ (\E g \in offs : AllocRelr(g))
+DesignRelr(f) == relrOn /\ AddrOf(f) % 2 = 0
+UseRelr(f) == IF Rule = "offset" THEN AllocRelr(f) ELSE DesignRelr(f)
 
 (* sort a set of naturals ascending *)
 RECURSIVE SortSet(_)
@@ -60,8 +66,7 @@ RECURSIVE Pack(_)
 Pack(ps) ==
     IF ps = <<>> THEN <<>>
     ELSE LET base == ps[1] + 8
-             inwin == {i \in 2..Len(ps) : ps[i] >= base /\ ps[i] < base + 63 * 8 /\ (ps[i] - base) % 8 = 0
-                                          /\ \A j \in 2..i : ps[j] >= base /\ ps[j] < base + 63 * 8 /\ (ps[j] - base) % 8 = 0}
+             inwin == {i \in 2..Len(ps) : \A j \in 2..i : ps[j] >= base /\ ps[j] < base + 63 * 8 /\ (ps[j] - base) % 8 = 0}
              n == Cardinality(inwin)
              bits == [i \in 1..n |-> (ps[i + 1] - base) \div 8]
              rest == SubSeq(ps, n + 2, Len(ps))
@@ -70,32 +75,33 @@ Pack(ps) ==
 
 (* an odd word written as an "address" entry is read back by the loader as a bitmap *)
 AsRead(p) == IF p % 2 = 0 THEN [t |-> "addr", addr |-> p]
-             ELSE [t |-> "bitmap", bits |-> SortSet({i \in 0..5 : ((p \div 2) \div (2 ^ i)) % 2 = 1})]
+             ELSE [t |-> "bitmap", bits |-> SortSet({i \in 0..13 : ((p \div 2) \div (2 ^ i)) % 2 = 1})]
 
 LinkOut ==
-    LET relrP == SortSet({x.p : x \in {y \in places : UseRelr(y)}})
-        relaP == SortSet({x.p : x \in {y \in places : ~UseRelr(y)}})
-        tgt == [p \in {x.p : x \in places} |-> 1000 + p]
-    IN [addrPlaces |-> {x.p : x \in places},
+    LET relrP == SortSet({AddrOf(f) : f \in {g \in offs : UseRelr(g)}})
+        relaP == SortSet({AddrOf(f) : f \in {g \in offs : ~UseRelr(g)}})
+        ps == {AddrOf(f) : f \in offs}
+        tgt == [p \in ps |-> 1000 + p]
+    IN [addrPlaces |-> ps,
         target |-> tgt,
         rela |-> [i \in 1..Len(relaP) |-> [off |-> relaP[i], addend |-> tgt[relaP[i]]]],
         relr |-> IF Rule = "packed" THEN Pack(relrP) ELSE [i \in 1..Len(relrP) |-> AsRead(relrP[i])],
         (* RELR places keep the link-time target in the field, RELA places hold 0 *)
-        img0 |-> [p \in {x.p : x \in places} |->
-                     IF \E y \in places : y.p = p /\ UseRelr(y) THEN W64(tgt[p]) ELSE WZero64]]
+        img0 |-> [p \in ps |-> IF \E f \in offs : AddrOf(f) = p /\ UseRelr(f) THEN W64(tgt[p]) ELSE WZero64]]
 
-MInit == /\ places \in PlaceSets /\ relrOn \in BOOLEAN
+MInit == /\ offs \in OffSets /\ secodd \in BOOLEAN /\ relrOn \in BOOLEAN
          /\ out = [addrPlaces |-> {}, target |-> <<>>, rela |-> <<>>, relr |-> <<>>, img0 |-> <<>>]
          /\ phase = "input"
-MLink == phase = "input" /\ out' = LinkOut /\ phase' = "linked" /\ UNCHANGED <<places, relrOn>>
-MLoad == phase = "linked" /\ phase' = "loaded" /\ UNCHANGED <<places, relrOn, out>>
+MLink == phase = "input" /\ out' = LinkOut /\ phase' = "linked" /\ UNCHANGED <<offs, secodd, relrOn>>
+MLoad == phase = "linked" /\ phase' = "loaded" /\ UNCHANGED <<offs, secodd, relrOn, out>>
 MNext == MLink \/ MLoad \/ (phase = "loaded" /\ UNCHANGED mvars)
 MSpec == MInit /\ [][MNext]_mvars
 
 MExactly1 == phase = "loaded" => Exactly1(out)
 MRelrEven == phase = "loaded" => RelrEven(out)
 MImageShift == phase = "loaded" => \A B \in ModelBases : ImageShift(out, B)
-(* entries the layout reserved (by its own rule) vs entries the writer consumes (by place parity): C23 *)
-MAccounting == phase = "loaded" =>
-    Cardinality({x \in places : UseRelr(x)}) = Cardinality({x \in places : relrOn /\ x.p % 2 = 0})
+(* entries the layout reserves (its own rule) vs entries the writer consumes (place parity): C23 *)
+NAllocRelr == Cardinality({f \in offs : AllocRelr(f)})
+NWriteRelr == Cardinality({f \in offs : WriteRelr(f)})
+MAccounting == phase = "loaded" => (Rule = "offset" => NAllocRelr = NWriteRelr)
 =============================================================================
